@@ -5,6 +5,7 @@ mod faults;
 mod gen;
 mod items;
 mod known;
+mod mutate;
 mod props;
 mod spec;
 mod types;
